@@ -105,3 +105,54 @@ Fixpoint wf_from (n : nat) (h : heap) : bool :=
   | c :: r => forallb (val_below n) c && wf_from (S n) r
   end.
 Definition wf (h : heap) : bool := wf_from 0 h.
+
+(* ------------------------------------------------------------------------- the recorder: observations (comparisons)
+   interleaved with everything the test can do to the objects it holds.  The snapshot keeps clone(v) = a deep copy
+   (generic_value.clone); the test holds no reference to the copies (they are reachable from the snapshot object only). *)
+Inductive ev :=
+| EObserve (v : hval)          (* a comparison: the snapshot records clone(v) *)
+| EMutate (m : mut)            (* the test mutates one of ITS objects *)
+| EAlloc (cell : list hval).   (* the test creates a new object *)
+
+Record rstate := { r_heap : heap; r_recs : list hval; r_own : list bool }.
+Definition owned (s : rstate) (a : nat) : bool := nth a (r_own s) false.
+Definition visible (s : rstate) (v : hval) : bool :=      (* the test holds no reference to the recorded copies *)
+  match v with HInt _ => true | HRef a => (a <? length (r_heap s)) && negb (owned s a) end.
+
+Definition rstep (fuel : nat) (s : rstate) (e : ev) : rstate :=
+  match e with
+  | EObserve v =>
+      if visible s v then
+        match deepcopy fuel (r_heap s) v with
+        | Some (h', v') => {| r_heap := h'; r_recs := r_recs s ++ [v'];
+                              r_own := r_own s ++ repeat true (length h' - length (r_heap s)) |}
+        | None => s                                   (* copy failed (model: out of fuel): nothing recorded *)
+        end
+      else s
+  | EMutate m =>
+      if visible s (HRef (mut_addr m)) && match mut_val m with Some v => visible s v | None => true end
+      then {| r_heap := apply_mut (r_heap s) m; r_recs := r_recs s; r_own := r_own s |}
+      else s
+  | EAlloc cell =>
+      if forallb (visible s) cell
+      then {| r_heap := r_heap s ++ [cell]; r_recs := r_recs s; r_own := r_own s ++ [false] |}
+      else s
+  end.
+
+Definition rrun (fuel : nat) (evs : list ev) (s : rstate) : rstate := fold_left (rstep fuel) evs s.
+Definition rinit (h : heap) : rstate := {| r_heap := h; r_recs := []; r_own := repeat false (length h) |}.
+
+(* clone = deepcopy + equality check of the copy against the original (generic_value.clone lines 22-40); both may be
+   user-defined (__deepcopy__, __eq__).  None = UsageError *)
+Section Clone.
+Variable X : Type.
+Variable cp : X -> X.                 (* copy.deepcopy, possibly a user-defined __deepcopy__ *)
+Variable eqb : X -> X -> bool.        (* the == of the copy against the original, possibly user-defined *)
+
+Definition clone (v : X) : option X := if eqb (cp v) v then Some (cp v) else None.     (* None = UsageError *)
+
+(* recording into any state goes through clone *)
+Definition record (S : Type) (upd : S -> X -> S) (s : S) (v : X) : S * bool :=
+  match clone v with Some c => (upd s c, true) | None => (s, false) end.
+
+End Clone.
